@@ -63,11 +63,26 @@ def run_one(module, func, per_condition_timeout, extra_path=None, wall_factor=4.
     return info
 
 
+# CrossHair replaces, with probability 0.3 per call, any call of a contract-bearing function by an arbitrary value of
+# its return type ("short-circuiting"); its own patched builtin hash() carries such a contract, so every hash() inside
+# Loki doubled the path tree and conditions over hash-heavy code never exhausted.  Executing the callee is always
+# sound and more precise, so the heuristic is switched off inside the analysed process.
+NO_SHORTCIRCUIT = """
+
+try:
+    import crosshair.core as _xh_core
+    _xh_core.consider_shortcircuit = lambda *a, **k: None
+except Exception:  # pragma: no cover
+    pass
+"""
+
+
 def materialise(name, text):
     """Write the (possibly generated) harness module text and its reachability twin into a scratch directory.
     Twin = every 'post: _' negated: a twin condition that is *refuted* proves that some execution reaches the end of
     the harness with the property holding (no vacuity)."""
     d = tempfile.mkdtemp(prefix='xh-')
+    text = text + NO_SHORTCIRCUIT
     Path(d, name + '.py').write_text(text)
     twin = re.sub(r'^(\s*)post: _\s*$', r'\1post: not _', text, flags=re.M)
     Path(d, name + '_twin.py').write_text(twin)
